@@ -110,13 +110,15 @@ Theorem C07_tags_consumed_shipped_user : forall lines l0 t m (a : usertags),
 Proof. exact shipped_consumed_user_flat. Qed.
 Print Assumptions C07_tags_consumed_shipped_user.
 
-(* the files this covers now (each reads back into the grammar under dict0): computed *)
+(* the files this covers now (each reads back into the grammar under dict0): computed.  For TEMPLATEStateMachine.py / .h the element record carries the
+   events' signature strings (el_evsigs: interface oracle); the theorems hold for every such record (elements_of_model of a model with if_sigs). *)
 Example C07_shipped_files_in_grammar :
   map (fun nl => match shipped16 dict0 (snd nl) with Some _ => true | None => false end)
       (filter (fun nl => existsb (String.eqb (fst nl)) ["Test.TEMPLATEStateMachine.cpp"; "TEMPLATEInternals.cs"; "Test.TEMPLATEStateMachine.cs";
-                                                        "TEMPLATEReceiver.h"; "TEMPLATETransmitter.h"; "TEMPLATEReceiver.cpp"; "TEMPLATETransmitter.cpp"])
-              (Gen.Templates.tmpl_cpp ++ Gen.Templates.tmpl_cs ++ Gen.Templates.tmpl_proto))
-  = [true; true; true; true; true; true; true].
+                                                        "TEMPLATEReceiver.h"; "TEMPLATETransmitter.h"; "TEMPLATEReceiver.cpp"; "TEMPLATETransmitter.cpp";
+                                                        "TEMPLATEStateMachine.py"; "TEMPLATEStateMachine.h"])
+              (Gen.Templates.tmpl_cpp ++ Gen.Templates.tmpl_cs ++ Gen.Templates.tmpl_py ++ Gen.Templates.tmpl_proto))
+  = [true; true; true; true; true; true; true; true; true].
 Proof. vm_compute. reflexivity. Qed.
 Print Assumptions C07_shipped_files_in_grammar.
 
